@@ -24,18 +24,37 @@ CLAIM = dict(
          "observable; Xbar(name, der) has parity base(name)+der for every name and order.  Every run extracts the declared "
          "transformTR/transformInv of every formula class reachable from the static, tabulating, dynamic and SDCT "
          "calculators (internal/external/kwargs variants, calculator-level overrides, the (name,der) map of "
-         "get_transform_TR/Inv) and proves checkTable = true for the hand-transcribed structure terms.  _partial: the "
-         "structure terms are a hand transcription of nn()/ln()/trace_ln; their faithfulness is checked numerically, "
-         "not proved.",
+         "get_transform_TR/Inv), TRANSLATES the live source of every such class (ast of __init__/nn/ln/trace/trace_ln and "
+         "of the Data_K helpers, executed symbolically) into a structure term, and has the kernel prove that each "
+         "translated term has the grade and realness of the hand-written term of the class and that the declared "
+         "transforms are what the calculus predicts for the translated term (checkAll).  _partial: the translator's map "
+         "numpy -> PExpr (einsum = multilinear product, slicing/transposes = index operations, functions of the band "
+         "energies = real even masks, Data_K.Xbar/covariant natives) is trusted, and checked numerically by the "
+         "grade-vs-measured-parity correspondence and the oracle.",
     note="Trusted: Lean kernel + Mathlib; the harness and its symmetric-model generators; gauge covariance of traces "
          "(C04) to pick U(-k) = conj U(k); numpy/FFT kernels.  Known findings (guarded narrowly): SDCT surf_II asym "
          "antisymmetrises the wrong axes; get_transform_TR for FF/GG/rotAAab/CCab_antisym and tildeHab/tildeHab_d declare "
          "the wrong TR parity (latent: no calculator consumes them).",
 )
 TRUSTED = [
-    "modelled (hand transcription, one PExpr per class): nn()/ln() of every Formula_ln in formula/covariant.py, basic.py, "
-    "elementary.py reachable from a calculator; trace_ln of the dynamic and SDCT formulas incl. Data_K.get_A_H/get_E1/"
-    "get_O1/get_M1/get_E2/get_Bln; Data_K.covariant / Xbar(name, der) / D_H; Transform.__call__ as (factor, conj, transpose)",
+    "structure terms: one hand-written PExpr per class (WB/Model/C08.lean) AND, on every run, one term per class x variant "
+    "TRANSLATED from the live source by harness/props/_c08_translate.py (symbolic execution of the ast of __init__, nn, ln, "
+    "nl, ll, trace, trace_ln, symsumm of formula/formula.py, covariant.py, basic.py, elementary.py, sdct.py, the Formula "
+    "classes of calculators/dynamic.py and of Data_K.D_H, Dcov, get_A_H, get_E1, get_O1, get_M1, get_E2, get_Bln); the kernel "
+    "checks grade(translated) = grade(hand) and the declared transforms on the translated term; classes outside the "
+    "fragment fall back to the hand term and are listed in the notes",
+    "the translator trusts this map (harness/props/_c08_translate.py docstring): cached_einsum(sub, a, b, ..) -> mul a (mul b ..) "
+    "with the subscript string NOT interpreted (any einsum is a real-multilinear map; one operand -> lin; real constant "
+    "tensors such as delta_f dropped); array*array -> hmul; number*array -> mul (const q); 1j -> I; x/number -> mul (const 1/q); "
+    "+,- -> add, neg; .real/np.real -> re; .imag/np.imag -> im; .conj()/np.conj -> conjE; indexing, swapaxes, transpose, "
+    "sum(axis), reshape, diagonal, copy, np.array -> lin (grade-neutral; alpha_A/beta_A slices tagged); np.zeros -> zero; "
+    "np.eye -> const 1; E_K, dEig_inv, sdct_kron and every arithmetic expression of them -> emask(.. const 1) (real, even); "
+    "X[sdct_is_degen()] = 0 -> emask NKRON X; B[..,alpha_A,beta_A] += m -> B + lin EPS m; _spin_velocity_einsum_opt(C,A,B) -> "
+    "C + A.B; if / for over flags, signs and literal tuples are executed concretely for the kwargs of the variant",
+    "NOT translated (natives of the translator, modelled as in WB/Model/C08.lean): Data_K.Xbar(name, der) = bar name der "
+    "(incl. how Data_K_R derives rotAA, rotAAab, CCab_antisym), Data_K.covariant (which builds Matrix_ln / Matrix_GenDer_ln "
+    "objects whose LIVE constructors and methods are then executed), V_covariant (Matrix_ln with ln() = zeros), E_K, dEig_inv, "
+    "delE_K = re(diag Xbar('Ham',1)), _R_to_k_H(get_R_mat(name)) = bar name 0; Transform.__call__ as (factor, conj, transpose)",
     "regenerated from the live code every run: declared transformTR/transformInv of every formula class x kwargs variant, "
     "calculator-level overrides (InjectionCurrent), the (name, der) map of get_transform_TR/get_transform_Inv",
     "assumed: a TR-symmetric (spinless) model has real X(R) for Ham, AA, BB, CCab, FF, GG and imaginary X(R) for CC, OO, SS, "
@@ -349,6 +368,25 @@ def var_lean(v):
     return "{ " + ", ".join(parts) + " }"
 
 
+VAR_FIELDS = [("int", True), ("ext", True), ("oo", "rotAA"), ("ff", "FF"), ("cc", "CCab"), ("sign", 1), ("sct", "ryoo"),
+              ("sym", True), ("m1", True), ("e2", True), ("vt", True), ("st", False), ("name", "Ham"), ("der", 0),
+              ("gender", False), ("sel", False)]
+
+
+def var_lean_mk(v):
+    """`Var.mk` with every field explicit (much cheaper to elaborate than structure-instance notation)"""
+    parts = []
+    for k, dflt in VAR_FIELDS:
+        x = v.get(k, dflt)
+        if isinstance(x, bool):
+            parts.append("true" if x else "false")
+        elif isinstance(x, int):
+            parts.append(str(x) if x >= 0 else f"({x})")
+        else:
+            parts.append("." + str(x))
+    return "(Var.mk " + " ".join(parts) + ")"
+
+
 def decl_lean(d):
     odd, cj, tp = d
     t = "none" if tp is None else "some [" + ", ".join(str(a) for a in tp) + "]"
@@ -576,36 +614,114 @@ def tables(ctx):
         if "unsupported" in sp.decl:
             ctx.mismatch(f"{sp.key()} declares a Transform with swap_axes, which the model cannot express", dict(spec=sp.key()))
     txt, rows, prow, skipped = lean_tables(specs, parity_rows)
-    ctx.count("table.rows", len(rows))
     ctx.count("table.parity_rows", len(prow))
     ctx.count("table.rows_excluded_known_finding", len(skipped))
+    # ---- translate the LIVE source of every class into a structure term
+    from . import _c08_translate as T
+    tr = T.Translator()
+    lines, fallback_rows, seen, fb_classes, tr_classes = [], [], set(), {}, set()
+    for sp in specs:
+        if sp.fname not in LEAN_FNAMES or "unsupported" in sp.decl or sp.decl[0] is None or sp.decl[1] is None:
+            continue
+        row = f"⟨.{sp.fname}, {var_lean_mk(sp.var)}, {decl_lean(sp.decl[0])}, {decl_lean(sp.decl[1])}⟩"
+        if row in seen:
+            continue
+        seen.add(row)
+        flag = known_class(sp, 0) is None
+        try:
+            with quiet():
+                node = T.translate_spec(tr, sp)
+            lines.append((sp, row, node, flag))
+            tr_classes.add(sp.fname if sp.kind != "cov" else f"covariant({sp.var['name']})")
+        except T.Untranslatable as e:
+            fb_classes.setdefault(sp.fname, str(e)[:120])
+            if flag:
+                fallback_rows.append("  " + row)
+        except Exception as e:  # noqa  (a bug of the translator must not hide behind a pass: fall back, and say so)
+            fb_classes.setdefault(sp.fname, f"translator error {type(e).__name__}: {str(e)[:100]}")
+            if flag:
+                fallback_rows.append("  " + row)
+    parity_rows_lean = [(nm, der) for nm, der, _, _ in parity_rows if nm != "D"]
+    defs, exprs, n_nodes, n_defs = T.render(tr.pool, [n for _, _, n, _ in lines])
+    ctx.count("table.rows", len(lines) + len(fallback_rows))
+    ctx.count("table.rows_translated", len(lines))
+    ctx.count("table.rows_hand_term_fallback", len(fallback_rows))
+    ctx.count("translator.pexpr_nodes", n_nodes)
+    st = ctx._c08
+    st["translated"] = dict(classes=sorted(tr_classes), fallback=fb_classes)
+    body = ",\n".join(f"  ({row}, {exprs[node]}, {'true' if flag else 'false'})" for sp, row, node, flag in lines)
     src = ("import WB.Model.C08\nopen WB.C08\n\n"
-           "/-- the declared transforms of every formula class x variant, extracted from the live code -/\n" + txt +
-           "\ntheorem declared_table_ok : checkTable table = true := by decide +kernel\n"
+           "noncomputable section\n"
+           "/-! structure terms TRANSLATED from the live Python source (shared sub-terms as definitions) -/\n" + defs + "\n\n"
+           "/-- (row extracted from the live declarations, translated term, are the declarations checked) -/\n"
+           "def table : List (Row × PExpr × Bool) := [\n" + body + "\n]\n\n"
+           "/-- rows whose class is outside the translated fragment: checked with the hand-written term -/\n"
+           "def fallbackTable : List Row := [\n" + ",\n".join(fallback_rows) + "\n]\n\n"
+           "def parityMap : List ParRow := [\n" + ",\n".join(prow) + "\n]\n\n"
+           "theorem translated_table_ok : checkAll table = true := by decide +kernel\n"
+           "theorem declared_table_ok : checkTable fallbackTable = true := by decide +kernel\n"
            "theorem get_transform_rule : checkParity parityMap = true := by decide +kernel\n"
-           "#print axioms declared_table_ok\n#print axioms get_transform_rule\n")
+           "#print axioms translated_table_ok\n#print axioms declared_table_ok\n#print axioms get_transform_rule\n"
+           "#eval IO.println (\"GRADES \" ++ \";\".intercalate (table.map fun p => showGrade (grade (termOf p.1.f p.1.v)) ++ \" \" ++ "
+           "WB.IO.showBool (isReal (termOf p.1.f p.1.v))))\n"
+           "#eval IO.println (\"BARS \" ++ \";\".intercalate (parityMap.map fun p => showGrade (barGrade p.name p.der)))\n")
     ok, out = ctx.lean_file("C08Table.lean", src)
-    ctx.sample(dict(generated_rows=rows[:3], parity_rows=prow[:3]))
-    if ok and "declared_table_ok" in out and "sorryAx" not in out:
-        ctx.note(f"regenerated table: {len(rows)} formula rows and {len(prow)} (name,der) rows re-proved by decide +kernel")
+    st["hand_grades"], st["bar_grades"] = {}, {}
+    for l in out.split("\n"):
+        if l.startswith("GRADES "):
+            gs = l[len("GRADES "):].split(";")
+            if len(gs) == len(lines):
+                st["hand_grades"] = {sp.key(): g for (sp, row, node, flag), g in zip(lines, gs)}
+        if l.startswith("BARS "):
+            gs = l[len("BARS "):].split(";")
+            if len(gs) == len(parity_rows_lean):
+                st["bar_grades"] = {key: g for key, g in zip(parity_rows_lean, gs)}
+    ctx.sample(dict(generated_rows=[f"({row}, {exprs[node][:60]}, {flag})" for sp, row, node, flag in lines[:3]], parity_rows=prow[:3]))
+    note = (f"translator: {len(lines)} of {len(lines) + len(fallback_rows) + sum(1 for _ in ())} table rows "
+            f"({len(tr_classes)} classes / covariant matrices) carry a structure term translated from the live source "
+            f"({n_nodes} PExpr nodes, {n_defs} shared definitions); hand-term fallback: "
+            + (", ".join(f"{k} ({v})" for k, v in sorted(fb_classes.items())) if fb_classes else "none"))
+    ctx.note(note)
+    if ok and "translated_table_ok" in out and "sorryAx" not in out and "error" not in out:
+        ctx.note(f"regenerated table: {len(lines)} translated rows (grade and realness equal to the hand-written term; declared "
+                 f"transforms validated on the translated term for {sum(1 for l in lines if l[3])} rows), "
+                 f"{len(fallback_rows)} hand-term rows and {len(prow)} (name,der) rows re-proved by decide +kernel")
         return
     # find the failing rows
-    src2 = ("import WB.Model.C08\nopen WB.C08\n\n" + txt +
-            "\n#eval (table.zipIdx.filter (fun p => !checkRow p.1)).map (·.2)\n"
+    src2 = ("import WB.Model.C08\nopen WB.C08\n\n" + defs + "\n\n"
+            "def  table : List (Row × PExpr × Bool) := [\n" + body + "\n]\n"
+            "def fallbackTable : List Row := [\n" + ",\n".join(fallback_rows) + "\n]\n"
+            "def parityMap : List ParRow := [\n" + ",\n".join(prow) + "\n]\n"
+            "#eval (table.zipIdx.filter (fun p => !(decide (grade p.1.2.1 = grade (termOf p.1.1.f p.1.1.v)) && "
+            "(isReal p.1.2.1 == isReal (termOf p.1.1.f p.1.1.v))))).map "
+            "(fun p => (p.2, showGrade (grade p.1.2.1), isReal p.1.2.1, showGrade (grade (termOf p.1.1.f p.1.1.v)), isReal (termOf p.1.1.f p.1.1.v)))\n"
+            "#eval (table.zipIdx.filter (fun p => p.1.2.2 && !checkRowTerm p.1.2.1 p.1.1)).map (·.2)\n"
+            "#eval (fallbackTable.zipIdx.filter (fun p => !checkRow p.1)).map (·.2)\n"
             "#eval (parityMap.zipIdx.filter (fun p => !checkParRow p.1)).map (·.2)\n")
     ok2, out2 = ctx.lean_file("C08TableDiag.lean", src2)
-    bad = []
+    found = 0
     try:
-        lists = [l for l in out2.split("\n") if l.strip().startswith("[")]
-        bad_rows = [int(x) for x in lists[0].strip(" []").split(",") if x.strip()]
-        bad_par = [int(x) for x in lists[1].strip(" []").split(",") if x.strip()]
-        bad = [rows[i].strip() for i in bad_rows] + [prow[i].strip() for i in bad_par]
-    except Exception:  # noqa
-        bad = ["(could not localise) " + out[-600:]]
-    for b in bad[:20]:
-        ctx.mismatch("declared transform contradicts the graded calculus: " + b, dict(row=b))
-    if not bad:
-        ctx.mismatch("generated table does not compile: " + out[-600:], dict(out=out[-1500:]))
+        flat = " ".join(out2.split("\n"))
+        import re as _re
+        groups = _re.findall(r"\[(.*?)\](?=\s*\[|\s*$)", flat)
+        tuples = _re.findall(r"\((\d+), \"([^\"]*)\", (true|false), \"([^\"]*)\", (true|false)\)", groups[0]) if groups else []
+        for i, gt, rt, gh, rh in tuples:
+            sp, row = lines[int(i)][0], lines[int(i)][1]
+            found += 1
+            ctx.mismatch(f"{sp.key()}: the structure term translated from the live source of {sp.fname} has grade "
+                         f"[{gt}, real={rt}] but the hand-written term has [{gh}, real={rh}] - the body of the class "
+                         f"(or of a class it uses) no longer matches the model", dict(row=row, translated=(gt, rt), hand=(gh, rh)))
+        for gi, tab, what in ((1, [l[1] for l in lines], "translated term"), (2, fallback_rows, "hand-written term"), (3, prow, "(name,der) rule")):
+            if len(groups) > gi:
+                for x in groups[gi].split(","):
+                    if x.strip().isdigit():
+                        found += 1
+                        ctx.mismatch(f"declared transform contradicts the graded calculus ({what}): " + tab[int(x)].strip(),
+                                     dict(row=tab[int(x)].strip()))
+    except Exception as e:  # noqa
+        ctx.note(f"could not localise the failing rows: {type(e).__name__}: {e}")
+    if not found:
+        ctx.mismatch("generated table does not compile: " + out[-600:], dict(out=out[-1500:], diag=out2[-800:]))
 
 
 # ---------------------------------------------------------------------------------------------
@@ -737,8 +853,19 @@ def corr(ctx):
     lines = [f"grade {by_key[k].fname} {var_token(by_key[k].var)}" for k in keys]
     names = sorted({(nm, der) for nm, der, _, _ in st["parity_rows"] if nm not in ("D",)})
     lines2 = [f"bar {nm} {der}" for nm, der in names]
-    allout = ctx.lean(lines + lines2)
-    out, out2 = allout[:len(lines)], allout[len(lines):]
+    # the grades of the hand-written terms (= those of the translated terms, by `translated_table_ok`) were printed by
+    # the generated table file; only what is missing there is asked from the model driver
+    hg, bg = st.get("hand_grades", {}), st.get("bar_grades", {})
+    need = [i for i, k in enumerate(keys) if k not in hg]
+    need2 = [i for i, nd in enumerate(names) if nd not in bg]
+    drv = ctx.lean([lines[i] for i in need] + [lines2[i] for i in need2]) if (need or need2) else []
+    out = [hg.get(k) for k in keys]
+    for i, o in zip(need, drv[:len(need)]):
+        out[i] = o
+    out2 = [bg.get(nd) for nd in names]
+    for i, o in zip(need2, drv[len(need):]):
+        out2[i] = o
+    ctx.corr_cases += len(keys) + len(names) - len(need) - len(need2)
     for k, l, o in zip(keys, lines, out):
         m = measured[k]
         ctx.case(signature=l, nontrivial=True)
